@@ -29,7 +29,8 @@ CONTAINERS = {"plist", "dict", "array"}
 WS = " \t\r\n"
 HEADER = ("Require Import Norad.Run.FontFiles Norad.Model.FontRT Norad.Model.GlifSpec Norad.Model.FontInfoFile.\n"
           "Open Scope N_scope.\n")
-CODES = {5: "the value is not a value of the schema (driver conversion)", 1: "the model writes another tree", 2: "the model does not read the tree",
+CODES = {6: "the deserialisers' checks / validate on the view of the value refuse a file norad loaded",
+         5: "the value is not a value of the schema (driver conversion)", 1: "the model writes another tree", 2: "the model does not read the tree",
          3: "the model reads another value", 4: "the model reads a tree norad refuses"}
 
 
